@@ -416,7 +416,7 @@ def td_spec_digests(vhbin, pid, tier, seed):
 
 
 def C13(tier, seed):
-    multi("C13", tier, seed, ["hllv", "theta", "bloom"], extra=td_spec_digests, mcs=
+    multi("C13", tier, seed, ["hllv", "theta", "bloom", "fi"], extra=td_spec_digests, mcs=
           [("MC_Hll", "MC_Hll_A.cfg")], assumptions=
           ["image variants are produced by the harness's own encoders (fam_hllfmt.rs, fam_theta.rs) AND re-encoded by the specification "
            "(EncList/EncSet/EncArr, EncV1..EncV4): both must agree byte for byte before the library's decoding is judged",
@@ -425,7 +425,8 @@ def C13(tier, seed):
            "double / float / buffered / reference big-endian double and float images (these encoders live in the harness only; every answer must be "
            "bit-identical to the double image's, whose answers are checked against the specification's exact rationals)",
            "Bloom: every checkpointed filter state as an exact image and as an image whose bit count is the dirty marker 2^64 - 1 (BLoad), "
-           "including saturated filters; frequent-items empty flags 4/5 are exercised by the C14 corpus only"], rule=
+           "including saturated filters; frequent items: empty images (flags 4 and 5) that state a map larger than the minimum, as the C++ "
+           "constructor with a starting size writes them (FFrom), then streams, round trips and merges on the decoded sketch"], rule=
           "every source state (list, set, array x Hll4/6/8, with exceptions, out of order; compact theta states from random and crafted sketches) "
           "in every variant; after loading: full state comparison, further updates, union into an empty union, re-serialization")
 
